@@ -21,6 +21,8 @@ func runC09(c *Ctx) {
 	c.Rule("C09-R4", "label conditions see group labels", 5)
 	c.Rule("C09-R5", "Match.IsMatch: every condition field influences the result", 9)
 	c.Rule("C09-R6", "ignore dominates; any-match disjunction", 6)
+	// the merged label view is computed per rule without touching the group: shared with C11-R3
+	defer c11Globals(c, "C09-R4")
 
 	cfg := p.Pkg("internal/config")
 	if cfg == nil {
@@ -206,6 +208,38 @@ func runC09(c *Ctx) {
 			return true
 		})
 		c.Check(ok, "C09-R4", "MatchLabel.isMatching ranges over entry.Labels().Items", ml.Decl.Pos(), "group-aware label set", "label conditions no longer iterate Entry.Labels() (group labels are invisible)")
+		// nothing about the entry decides the result before the merged label set was
+		// looked at: a return that can be reached without passing the loop over
+		// entry.Labels().Items is not guarded by a condition on the entry
+		{
+			fl := p.NewFlow(ml)
+			entryP := paramObj(ml, 0)
+			pmM := parentMap(ml.Decl.Body)
+			isLoop := func(n ast.Node) bool {
+				found := false
+				inspectNoLit(n, func(m ast.Node) bool {
+					if call, isCall := m.(*ast.CallExpr); isCall && isCallTo(info, call, "internal/discovery.Entry.Labels") {
+						found = true
+					}
+					return true
+				})
+				return found
+			}
+			bad := ""
+			for _, r := range fl.Find(func(n ast.Node) bool { _, isRet := n.(*ast.ReturnStmt); return isRet }) {
+				target := r.Site
+				if reach, _ := fl.Reach(fl.Entry(), func(s Site) bool { return s == target }, false, PathQ{Avoid: isLoop}); !reach {
+					continue
+				}
+				for _, a := range lexicalGuards(pmM, r.Inner, ml.Decl.Body) {
+					if mentionsObj(info, a.E, entryP) {
+						bad = roleStr(info, a.E)
+					}
+				}
+			}
+			c.Check(bad == "", "C09-R4", "MatchLabel.isMatching:no verdict about the entry before its merged labels were read", ml.Decl.Pos(), "no entry-dependent early return",
+				"the label condition returns under `"+bad+"` without having looked at entry.Labels(): a shortcut on the rule's own labels hides the labels the rule inherits from its group, so `label` conditions never match rules whose labels come only from the group")
+		}
 	}
 	if el := c.MustFunc("C09-R4", "internal/discovery.Entry.Labels"); el != nil {
 		dinfo := el.Pkg.TypesInfo
@@ -523,6 +557,38 @@ func c09StateDefault(c *Ctx, R string) {
 					}
 				}
 			}
+		}
+		// the loop that defaults State visits every block: it is never left early
+		{
+			early := ""
+			for _, s2 := range stores {
+				for cur := parentMap(drm.Decl.Body)[s2.Inner]; cur != nil; cur = parentMap(drm.Decl.Body)[cur] {
+					loopBody := (*ast.BlockStmt)(nil)
+					switch x := cur.(type) {
+					case *ast.RangeStmt:
+						loopBody = x.Body
+					case *ast.ForStmt:
+						loopBody = x.Body
+					}
+					if loopBody == nil {
+						continue
+					}
+					inspectNoLit(loopBody, func(m ast.Node) bool {
+						switch y := m.(type) {
+						case *ast.ReturnStmt:
+							early = "return"
+						case *ast.BranchStmt:
+							if y.Tok == token.BREAK || y.Tok == token.GOTO {
+								early = y.Tok.String()
+							}
+						}
+						return true
+					})
+					break
+				}
+			}
+			c.Check(early == "", R, "defaultRuleMatch:every match block is visited", drm.Decl.Pos(), "the defaulting loop is never left early",
+				"the loop that gives match blocks their default state is left with `"+early+"`: blocks after that point keep an empty state list and match every state, so their checks also run on unmodified rules in `pint ci`")
 		}
 		// every result is the default block or the slice rebuilt by the loop over ALL
 		// match blocks: handing the parameter back untouched skips the defaulting
